@@ -179,11 +179,27 @@ class C13Clauses(Clauses):
             return {"C13.roundtrip": "VIOLATED"}
         return {"C13.roundtrip": "ok"}
 
+    def model_resolve(self, text):
+        m = self.I.model
+        if text in m.unit_symbols:
+            return m.unit_symbols[text]
+        for i in range(1, len(text)):
+            p, u = m.prefix_symbols.get(text[:i]), m.unit_symbols.get(text[i:])
+            if p is not None and u is not None:
+                return M.u_with_prefix(p, u)
+        return m.unit_names.get(text)
+
     def spelling(self, op, kind, value, exc, out):
         I = self.I
         g = op["group"]
         I.count("C13.spelling.checked")
         amb = bool(op.get("ambiguous"))
+        # the symbol table may have grown since the text was generated (late imports,
+        # definitions): ambiguity is a property of the table at parse time
+        for text, intended in op.get("term_texts") or []:
+            if self.model_resolve(text) != M.nf_from_json(intended):
+                amb = True
+                I.probe("spelling-became-ambiguous-after-generation")
         want = M.nf_from_json(op["nf"]) if op.get("nf") else None
         if exc is not None:
             if g in self.groups or not amb:
